@@ -109,9 +109,15 @@ func c17Script(c *Ctx, track bool, gen string) Case {
 		lateAt = c.R.N(len(evs) + 1)
 	}
 	p := rigParams{nick: start, ident: "id", name: "Real", version: "v", quit: "q", split: 450, sasl: "none", newNick: gen, track: track && lateAt < 0}
+	lateNewNick = c.R.P(1, 4)
 	rg := newRig(p)
+	late := lateNewNick
+	lateNewNick = false
 	cs := Case{Reqs: []string{p.req()}, Impl: []string{"ok"}}
 	var descs []string
+	if late && gen != "default" {
+		descs = append(descs, "(generator installed through Config() after Client())")
+	}
 	nontrivial := false
 	for i, e := range evs {
 		if i == lateAt {
